@@ -393,6 +393,15 @@ class Evaluator(object):
                     cls = obj.__dict__['_cls']
                     return any(isinstance(t, Sym) and self.is_subclass(
                         cls, t.name.split('.')[-1]) for t in types)
+                builtin = {'int': int, 'str': str, 'list': list,
+                           'tuple': tuple, 'dict': dict, 'bool': bool}
+                for t in types:
+                    if isinstance(t, Sym) and t.module == 'builtins' and \
+                            t.name in builtin and isinstance(
+                                obj, builtin[t.name]):
+                        return True
+                    if isinstance(t, type) and isinstance(obj, t):
+                        return True
                 return False
             if n == 'len' and n not in env:
                 return len(self.expr(e.args[0], env))
